@@ -4,7 +4,7 @@ from hypothesis import strategies as st
 from vlib import env, core, gen, asserts, printer, gread, geom, kf  # noqa: F401
 
 ID = "C02"
-BUDGET = {"quick": 1600, "thorough": 16000}
+BUDGET = {"quick": 1200, "thorough": 16000}
 PROFILE = gen.profile(retract="wild", rebase=True, reg_events=False, exact=False, arc_r=True, arc_rel=True,
                       e_rel_ok=True, g10pl=True, visits=False, scripts=True, at_w=3, offon=3)
 RULE = ("The path is generated first (moves, I/J and R arcs incl. under G91, matched/unmatched/combined E-only and G10/G11 "
